@@ -28,7 +28,7 @@ pub fn run_tree(t: &Tree, init_x: Option<u8>) -> Obs {
 pub fn run_config(config: &mahf::Configuration<TagP>, init_x: Option<u8>) -> Obs {
     reset_trace();
     let mut st = caller_state(init_x);
-    let r = config.run(&TagP, &mut st).map_err(|e| format!("{:#}", e));
+    let r = config.run(&TagP, &mut st).map_err(|e| error_text(&e));
     (r, take_trace(), dump_state(&st))
 }
 
